@@ -8,7 +8,8 @@ From Coq Require Import ZArith List Bool Lia Floats.SpecFloat.
 From GeosV.Lib Require Import GeomDefs LocateDefs ValidDefs GenPreludeF.
 From GeosV.C03 Require Import OverlayDefs OverlayGeom OverlayProofs.
 From GeosV.C04 Require Import GenPreludePM PrecDefs PrecRun PrecProofs PrecHot.
-From GeosV.Gen Require PM_makePrecise HP_intersectsScaled.
+From GeosV.Gen Require PM_makePrecise HP_intersectsScaled HP_intersectsPt.
+From GeosV.C04 Require GenPreludeHP.
 Import ListNotations.
 Local Open Scope Z_scope.
 
@@ -57,6 +58,18 @@ Theorem hotpixel_spec_any_centre_partial : forall hx hy px py qx qy,
   (hp_gen hx hy px py qx qy = true <-> seg_meets_pixel hx hy px py qx qy).
 Proof. exact PrecHot.hotpixel_spec_any_centre. Qed.
 Print Assumptions hotpixel_spec_any_centre_partial.
+(* HotPixel::intersects(p) (generated, half units): the pixel is the half-open square, closed left / bottom, open right / top *)
+Theorem gen_intersectsPt_halfopen : forall hx hy x y,
+  HP_intersectsPt.g_intersectsPt (GenPreludeHP.mkHP hx hy) (x, y) = true <-> (hx - 1 <= x < hx + 1 /\ hy - 1 <= y < hy + 1).
+Proof. exact PrecHot.gen_intersectsPt_halfopen. Qed.
+Print Assumptions gen_intersectsPt_halfopen.
+Theorem intersectsPt_is_degenerate_segment : forall hx hy x y,
+  HP_intersectsPt.g_intersectsPt (GenPreludeHP.mkHP hx hy) (x, y) = true <-> seg_meets_pixel hx hy x y x y.
+Proof. exact PrecHot.intersectsPt_is_degenerate_segment. Qed.
+Example intersectsPt_nonvacuous :
+  HP_intersectsPt.g_intersectsPt (GenPreludeHP.mkHP 0 0) (0, 1) = false /\ HP_intersectsPt.g_intersectsPt (GenPreludeHP.mkHP 0 2) (0, 1) = true
+  /\ HP_intersectsPt.g_intersectsPt (GenPreludeHP.mkHP 0 0) (-1, -1) = true /\ HP_intersectsPt.g_intersectsPt (GenPreludeHP.mkHP 0 0) (1, 0) = false.
+Proof. repeat split. Qed.
 Theorem meets_fm_complete : forall hx hy px py qx qy, seg_meets_pixel hx hy px py qx qy -> meets_fm hx hy px py qx qy = true.
 Proof. exact PrecHot.meets_fm_complete. Qed.
 Theorem meets_wit_sound : forall hx hy px py qx qy, meets_wit hx hy px py qx qy = true -> seg_meets_pixel hx hy px py qx qy.
